@@ -14,13 +14,13 @@ const KINDS: &[(&str, u8, &str)] = &[
     ("r--s", 0, "/dev/shm/x y (deleted)"), ("--xp", 0, ""), ("rw-p", 0, "[anon:scudo]"), ("r--p", 0, "relative name"), ("---s", 0, ""),
     ("r-xp", 0, ""), ("---p", 1, ""), ("r-xp", 0, "/usr/lib/liba.so (deleted)"), ("---p", 0, "[vdso]"),
 ];
-fn perms_bits(p: &str) -> u64 {
+pub fn perms_bits(p: &str) -> u64 {
     let b = p.as_bytes();
     (if b[0] == b'r' { 1 } else { 0 }) | (if b[1] == b'w' { 2 } else { 0 }) | (if b[2] == b'x' { 4 } else { 0 })
         | (if b[3] == b's' { 8 } else { 0 }) | (if b[3] == b'p' { 16 } else { 0 })
 }
 /// what `aggregate` sees after procfs-core's classification of the path field
-fn classified(name: &str) -> Option<Vec<u8>> {
+pub fn classified(name: &str) -> Option<Vec<u8>> {
     let n = name.trim();
     if n.is_empty() { return None; }
     let bracket = n.starts_with('[') && n.ends_with(']');
